@@ -11,6 +11,28 @@ os.chdir(VERIF)
 os.environ.setdefault('JENSENGROUP_PROPKA_VERIF', '1')
 
 
+def _guard_monitor(fn, pid):
+    """An exception that escapes from the REAL program while a monitor runs it on one of its inputs is a finding about the program
+    (reported as a monitor violation with the traceback), not a crash of the checker; anything else is re-raised."""
+    from pyvc import REPO
+
+    def run(pr):
+        try:
+            return fn(pr)
+        except Exception as e:      # noqa
+            tb = traceback.extract_tb(e.__traceback__)
+            root = os.path.realpath(REPO) + os.sep
+            if not tb or not os.path.realpath(tb[-1].filename).startswith(root):
+                raise
+            where = ' <- '.join('%s:%d %s' % (os.path.basename(f.filename), f.lineno, f.name) for f in reversed(tb[-4:]))
+            pr.bounded.append({'name': '%s-monitor: the real program runs to completion on the monitor inputs' % pid, 'evaluations': 1,
+                               'distinct_nontrivial': 1, 'bound': 'the inputs of the monitor up to the failing one',
+                               'rule': 'no exception escapes from propka on a monitor input',
+                               'violations': [{'what': 'propka raised %s: %s (%s)' % (type(e).__name__, str(e)[:200], where),
+                                               'replay': None}]})
+    return run
+
+
 def main():
     ap = argparse.ArgumentParser()
     ap.add_argument('prop', nargs='?')
@@ -45,6 +67,8 @@ def main():
         import json as _json
         rq = os.path.join(VERIF, 'props', 'required.json')
         pr.required = _json.load(open(rq)).get(a.prop, []) if os.path.exists(rq) else []
+        if hasattr(mod, 'bounded'):
+            mod.bounded = _guard_monitor(mod.bounded, a.prop)
         mod.run(pr, repo)
     except Exception:
         traceback.print_exc()
